@@ -215,6 +215,23 @@ def check(ctx: Ctx, col: Collector, tier: str) -> None:
         col.bad("C05.UNION-NORMAL", key, repo.loc(GEN, gfi.node), f"{bad[:2]}", "the nullable shorthand T? is produced on a path that did not establish 'exactly two members, one of them Nothing?'")
     else:
         col.ok("C05.UNION-NORMAL", key, repo.loc(GEN, nullable[0].node), f"{len(nullable)} T? paths, each under len==2 and 'Nothing?' in members")
+    # which member kinds may take the shorthand: `X?` is only a type when X is a (possibly parameterised) named type; `unknown?`, a callable type
+    # followed by `?` or `union<...>?` are not Safe-DS (C02)
+    none_member = DictV(((Const("kind"), Const("NamedType")), (Const("name"), Const("None")), (Const("qname"), Const("builtins.None"))))
+    tsfi2 = repo.function(GEN, f"{GENCLS}._create_type_string")
+    for mk in sorted(ctx.sds_type_classes):
+        member = DictV(((Const("kind"), Const(mk)), (Const("name"), Sym("M.name")), (Const("qname"), Sym("M.qname"))))
+        td = DictV(((Const("kind"), Const("UnionType")), (Const("types"), ListV((member, none_member)))))
+        kouts = ctx.interp(tsfi2).run_function(tsfi2, {"self": Sym("self"), "type_data": td}, gen_state())
+        short = [o for o in kouts if o.kind == "return" and render(o.value).endswith("?") and not render(o.value).startswith("union<")]
+        key = f"{gkey}::union::nullable-member-kind::{mk}"
+        forbidden = mk in ("UnknownType", "CallableType", "UnionType", "LiteralType")
+        if forbidden and short:
+            col.bad("C05.UNION-NORMAL", key, repo.loc(GEN, short[0].node), f"`{render(short[0].value)[:70]}`",
+                    f"a union of a {mk} and None is written with the nullable shorthand: " + {"UnknownType": "`unknown?`", "CallableType": "`(param_1: Int) -> result_1: Int?`", "UnionType": "`union<...>?`",
+                                                                                              "LiteralType": "`literal<...>?`"}[mk] + " is no Safe-DS type (only named types take `?`)")
+        else:
+            col.ok("C05.UNION-NORMAL", key, repo.loc(GEN, tsfi2.node), f"{mk} | None: " + ("shorthand `X?`" if short else "written as a union / merged literal"), nontrivial=forbidden or bool(short))
     # the literal-or-None shorthand returns one member alone: only a union of exactly two members may be collapsed that way
     collapsed = [o for o in rets if isinstance(o.value, App) and o.value.func.endswith("_create_type_string")]
     key = f"{gkey}::union::literal-none-shorthand"
